@@ -173,6 +173,20 @@ def build(shape, gin, lists_on='target'):
           return f(*args, **kwargs)
         return inner
       target = deco(target)
+    tw = shape.get('twin_required_defaults')
+    if tw is not None:
+      # a sibling made from the very same `def` (one code object, as a factory or a closure
+      # produces them) whose defaults differ, registered *first*
+      src2 = (f'def {name}_twinsrc({signature_source(dict(shape, required_defaults=list(tw)))}):\n'
+              f'  return 0\n')
+      exec(compile(src2, f'<{modname}>', 'exec'), mod.__dict__)  # pylint: disable=exec-used
+      t = mod.__dict__[name + '_twinsrc']
+      twin = types.FunctionType(original.__code__, original.__globals__, name + '_twin',
+                                t.__defaults__)
+      twin.__kwdefaults__ = t.__kwdefaults__
+      twin.__qualname__ = name + '_twin'
+      mod.__dict__[name + '_twin'] = twin
+      register(twin, reg_name=name + '_twin')
     cfg = register(target)
     if cfg is None:
       cfg = gin.get_configurable(target)
